@@ -6,7 +6,9 @@ RULE = ("random histories of UPDATEs (announce / withdraw / both for one prefix 
         "three also UPDATE octets from C04's proved encoder handed to BMP peers / BGP sessions (IPv4/IPv6 unicast/multicast over a pool of 10 "
         "prefixes shared with the abstract ops, MP_REACH / MP_UNREACH / conventional fields, End-of-RIB forms, unknown AFI/SAFIs) and malformed "
         "variants (an MP attribute whose last NLRI is spoilt behind a good one; C04's mutations), every pool prefix queried; plus MRT update files "
-        "through C16's engine (a prefix withdrawn and announced by one UPDATE in a third of the UPDATEs); "
+        "through C16's engine (a prefix withdrawn and announced by one UPDATE in a third of the UPDATEs; in two cases of three also UPDATE "
+        "octets inside the BGP4MP records: C04's encoder, its malformed variants, and UPDATEs malformed in exactly one half - a spoilt NLRI "
+        "inside MP_UNREACH_NLRI / MP_REACH_NLRI next to a good other half); "
         "non-trivial = some query shows two or more sources or a withdrawn entry")
 
 
@@ -30,7 +32,13 @@ MRT_PEERS = [0, 2, 3, 5]     # pairwise different address and AS (harness/src/en
 
 def gen_mrt(rng, tier):
     n = 250 if tier == "quick" else 4000
-    for _ in range(n):
+    # two cases in three also take UPDATEs as octets (op MB of engine c16): from C04's proved encoder and malformed variants,
+    # above all UPDATEs that are malformed in exactly ONE half - 'an UPDATE that fails to parse changes nothing at all'
+    from props import c16 as C16
+    rawn = [i for i in range(n) if i % 3 != 0]
+    hexes = dict(zip(rawn, C16.encode_raw(rng.fork("mrtenc"), [C16.raw_plan16(rng.fork("mrtraw%d" % i)) for i in rawn])))
+    for i in range(n):
+        raw = hexes.get(i) or None
         ops = []
         for _f in range(rng.range(1, 3)):
             ops.append("F " + rng.choice("pgb"))
@@ -39,6 +47,9 @@ def gen_mrt(rng, tier):
                 v = rng.weighted([(4, 60), (14, 15), (2, 15), (12, 10)])
                 if v % 10 == 2 and p == 5:
                     v += 2                                    # a four-octet AS does not fit an AS2 record
+                if raw and rng.chance(55):
+                    ops.append("MB %d %d %s" % (v, p, rng.choice(raw)))
+                    continue
                 af = rng.weighted([(0, 75), (1, 25)])
                 ps = sorted({rng.below(4) for _ in range(rng.weighted([(0, 15), (1, 45), (2, 30), (3, 10)]))})
                 ws = sorted({rng.below(4) for _ in range(rng.weighted([(0, 35), (1, 40), (2, 25)]))})
@@ -48,6 +59,8 @@ def gen_mrt(rng, tier):
             if rng.chance(40):
                 ops.append("Q %d %d" % (rng.below(2), rng.below(4)))
         ops += ["Q %d %d" % (af, x) for af in (0, 1) for x in range(4)]
+        if raw:
+            ops += ["QX 0 " + x for x in pipegen.V4POOL[2:]] + ["QX 1 " + x for x in pipegen.V6POOL[1:]]
         yield ";".join(ops)
 
 
@@ -57,8 +70,12 @@ def nontrivial_mrt(case, out):
 
 def classify_mrt(case, out):
     ks = {"mrt-update-file"}
+    from props import c16 as C16
     for o in case.split(";"):
         t = o.split()
+        if t and t[0] == "MB":
+            ks.add("update-octets-half-malformed:" + C16.HALF_HEX[t[3]] if t[3] in C16.HALF_HEX else "update-octets")
+            continue
         if t and t[0] == "M" and t[5] != "-" and t[7] != "-" and set(t[5].split(",")) & set(t[7].split(",")):
             ks.add("prefix-withdrawn-and-announced-in-one-update")
     if any(t.startswith("q:") and "=W" in t for t in out.split()):
@@ -67,7 +84,10 @@ def classify_mrt(case, out):
 
 
 def corpus_mrt():
-    return ["F p;M 4 0 0 3 1,2 0 -;M 4 0 0 4 1 0 1,2;M 4 2 1 5 1 1 -;Q 0 1;Q 0 2;Q 1 1"]
+    return ["F p;M 4 0 0 3 1,2 0 -;M 4 0 0 4 1 0 1,2;M 4 2 1 5 1 1 -;Q 0 1;Q 0 2;Q 1 1",
+            # UPDATEs that fail to parse in ONE half (a 200-bit NLRI inside MP_UNREACH_NLRI next to a conventional announcement of
+            # 10.9.8.0/24 and 10.9.9.0/24 ... inside MP_REACH_NLRI next to a conventional withdrawal of 10.9.9.0/24) change nothing
+            "F p;MB 4 0 ffffffffffffffffffffffffffffffff003302000000144001010040020602010000fde9400304c0000201180a0908180a0909;MB 4 0 ffffffffffffffffffffffffffffffff003f02000000244001010040020602010000fde9400304c0000201800f0d0002014020010db800000001c8180a0908;MB 4 0 ffffffffffffffffffffffffffffffff004a020004180a0909002f4001010040020602010000fde9800e1f0002011020010db8000000000000000000000001004020010db800000001c8;M 4 0 0 4 1 0 -;QX 0 24/0a0908;QX 0 24/0a0909;Q 0 1"]
 
 
 def nontrivial(case, out):
